@@ -117,4 +117,80 @@ theorem recvKeys_decodes_cr (l : List (Str × Key)) (h : ∀ p ∈ l, encOk p = 
     simp only [List.flatMap_cons, List.map_cons, List.append_assoc, List.cons_append]
     rw [scan_key p (h p List.mem_cons_self) u, ih (fun q hq => h q (List.mem_cons_of_mem _ hq)) false]
 
+/-! ### only glyphs ever reach the edit line -/
+
+theorem table_printable_plain :
+    (∀ row ∈ Gen.rows, ∀ e ∈ row, e.2 = Tr.ensure .printable → 32 ≤ e.1 ∧ e.1 ≤ 126) ∧
+    (∀ o ∈ Gen.stops, o ≠ some Res.printable) := by
+  decide +kernel
+
+theorem lookup_mem {β} (k : Nat) (v : β) : ∀ (l : List (Nat × β)), l.lookup k = some v → (k, v) ∈ l
+  | [], h => by simp [List.lookup] at h
+  | (k', v') :: l, h => by
+    simp only [List.lookup] at h
+    by_cases hk : k = k'
+    · subst hk; simp at h; subst h; exact List.mem_cons_self
+    · have : (k == k') = false := by simpa using hk
+      simp only [this] at h
+      exact List.mem_cons_of_mem _ (lookup_mem k v l h)
+
+theorem scanNext_printable (st : Nat) (b : UInt8) (h : scanNext st b = .ensure .printable) : plain b = true := by
+  unfold scanNext at h
+  cases hl : (Gen.rows.getD st []).lookup b.toNat with
+  | none => rw [hl] at h; cases h
+  | some t =>
+    rw [hl] at h; simp only at h; subst h
+    have hm := lookup_mem _ _ _ hl
+    have hrow : Gen.rows.getD st [] ∈ Gen.rows := by
+      by_cases hst : st < Gen.rows.length
+      · rw [List.getD_eq_getElem?_getD, List.getElem?_eq_getElem hst]; exact List.getElem_mem hst
+      · rw [List.getD_eq_getElem?_getD, List.getElem?_eq_none (by omega)] at hm; simp at hm
+    have := table_printable_plain.1 _ hrow _ hm rfl
+    simp only [plain, Bool.and_eq_true, decide_eq_true_eq]
+    have hb := UInt8.toNat_lt b
+    constructor
+    · show (32 : UInt8).toNat ≤ b.toNat; exact this.1
+    · show b.toNat ≤ (126 : UInt8).toNat; exact this.2
+
+theorem scanStop_not_printable (st : Nat) : scanStop st ≠ some .printable := by
+  unfold scanStop
+  by_cases hst : st < Gen.stops.length
+  · rw [List.getD_eq_getElem?_getD, List.getElem?_eq_getElem hst]
+    exact table_printable_plain.2 _ (List.getElem_mem hst)
+  · rw [List.getD_eq_getElem?_getD, List.getElem?_eq_none (by omega)]; simp
+
+theorem scan_printable_plain (bs : Str) : ∀ (st : Nat) (u : Bool), ∀ p ∈ scan st u bs, p.1 = .printable → plain p.2 = true := by
+  induction bs with
+  | nil =>
+    intro st u p hp hpr
+    unfold scan at hp
+    cases u with
+    | false => simp at hp
+    | true =>
+      cases hs : scanStop st with
+      | none => simp [hs] at hp
+      | some r =>
+        simp [hs] at hp; subst hp
+        simp only at hpr; subst hpr
+        exact absurd hs (scanStop_not_printable st)
+  | cons b bs ih =>
+    intro st u p hp hpr
+    unfold scan at hp
+    cases hn : scanNext st b with
+    | ensure r =>
+      simp only [hn] at hp
+      rcases List.mem_cons.mp hp with h | h
+      · subst h; simp only at hpr; subst hpr; exact scanNext_printable st b hn
+      · exact ih 0 false p h hpr
+    | unsure n => simp only [hn] at hp; exact ih n true p hp hpr
+    | fail n => simp only [hn] at hp; exact ih n false p hp hpr
+
+theorem recvKeys_plain (bs : Str) (c : UInt8) (h : Key.char c ∈ recvKeys bs) : plain c = true := by
+  unfold recvKeys at h
+  obtain ⟨p, hp, hk⟩ := List.mem_filterMap.mp h
+  obtain ⟨r, b⟩ := p
+  cases r <;> simp [toKey] at hk
+  subst hk
+  exact scan_printable_plain bs 0 true _ hp rfl
+
 end Tbox.C13
